@@ -14,7 +14,7 @@ import os
 import random
 
 META = {
-    "technique": "TLC exhaustive on spec/getter/Getter.tla (+ defect configurations that must fail) ; behaviours "
+    "technique": "TLC exhaustive on spec/getter/Getter.tla and spec/getter/BitswapFetch.tla (+ defect configurations that must fail) ; behaviours "
                  "enumerated by TLC replayed on the real getters over a mock network with hostile peers (B2) ; "
                  "observed calls validated by TLC against spec/getter/GetterTrace.tla (B1)",
     "level_text": "Model checking of the request loop / cascade / bitswap population model for all fault sequences "
@@ -34,7 +34,10 @@ META = {
                   "one-minute floor lowered through a verif-tagged setter (a seeded sample of those behaviours). Cascade cases need a real clock (split deadlines): their "
                   "outcome is judged by the safety oracle; a small share of them may miss trace matching because of "
                   "timing and is reported as a note. Range requests are single-namespace ranges (the server refuses "
-                  "and the verifier rejects others).",
+                  "and the verifier rejects others). Overlapping bitswap-getter calls are staged (every later call "
+                  "enters while the earlier ones wait; candidates arrive before the second call or after all calls "
+                  "entered) against an exchange that hashes each candidate once and hands it to every call that "
+                  "wants the CID, as the Bitswap client does.",
     "design_ref": "DESIGN.md §5 C06, §6 #6 #7",
 }
 
@@ -111,8 +114,34 @@ def run(ctx):
     json.dump(cases, open(cases_path, "w"))
     ctx.cover(behaviours_replayed=len(cases))
 
+    # ---- 3b. overlapping calls of the bitswap getter: spec/getter/BitswapFetch.tla
+    fr = ctx.tlc("getter/BitswapFetch.tla", "getter/MCFetch.cfg", workers=8, timeout=600, coverage=not quick)
+    if not quick:
+        ctx.tlc("getter/BitswapFetch.tla", "getter/MCFetch_split.cfg", workers=8, timeout=600)
+    for cfg, inv in (("MCFetch_defect_nodupwant", "NilMeansPopulated"), ("MCFetch_defect_inplace", "OnlyVerified"),
+                     ("MCFetch_defect_shortcut", "NoPanic")):
+        r = ctx.tlc("getter/BitswapFetch.tla", "getter/%s.cfg" % cfg, workers=2, timeout=300, must_pass=False, count=False)
+        if r.violated != inv:
+            ctx.inconclusive("model sensitivity lost: %s should violate %s, got ok=%s violated=%s" % (cfg, inv, r.ok, r.violated))
+        else:
+            ctx.cover(model_defect_configs_violated=1)
+    groups = {}
+    for cfg in ("MCFetch_cases1", "MCFetch_cases2", "MCFetch_cases3", "MCFetch_cases22"):
+        r = ctx.tlc("getter/BitswapFetch.tla", "getter/%s.cfg" % cfg, workers=2, timeout=300, count=False)
+        for c in r.printed.get("CASE", []):
+            key = json.dumps([c["calls"], c["blocks"], c["offers"]], sort_keys=True)
+            g = groups.setdefault(key, {"calls": c["calls"], "blocks": c["blocks"], "offers": c["offers"], "allowed": []})
+            if c["ret"] not in g["allowed"]:
+                g["allowed"].append(c["ret"])
+    fetch_cases = list(groups.values())
+    if not fetch_cases:
+        ctx.inconclusive("BitswapFetch.tla printed no behaviours")
+    fetch_path = os.path.join(ctx.work, "fetch_cases.json")
+    json.dump(fetch_cases, open(fetch_path, "w"))
+    ctx.cover(behaviours_fetch_model=len(fetch_cases))
+
     # ---- 4. replay on the real getters
-    rep = ctx.go_driver("getter", env={"VERIF_CASES": cases_path, "VERIF_SEEDED": 150 if quick else 800,
+    rep = ctx.go_driver("getter", env={"VERIF_CASES": cases_path, "VERIF_FETCH_CASES": fetch_path, "VERIF_SEEDED": 150 if quick else 800,
                                        "VERIF_PAR": 12}, timeout=1500 if quick else 5400)
     summ = rep.get("summary", {})
     cnt = rep.get("counters", {})
@@ -124,7 +153,7 @@ def run(ctx):
             "error_path_after_bad_payload": 50, "returned_ok": 20, "returned_err": 50,
             "calls_chain_shrex": 100, "calls_chain_bitswap": 20, "calls_chain_shrex+bitswap": 10,
             "calls_chain_store+shrex+bitswap": 10, "calls_blockstore_datastore": 5, "calls_blockstore_edsstore": 5,
-            "calls_samples": 20, "calls_row": 20, "calls_eds": 20, "calls_nd": 20, "calls_range": 20}
+            "overlapping_calls": 150, "overlapping_calls_ok": 40, "fetch_model_cases": 50, "calls_samples": 20, "calls_row": 20, "calls_eds": 20, "calls_nd": 20, "calls_range": 20}
     low = {k: cnt.get(k, 0) for k, v in need.items() if cnt.get(k, 0) < v}
     if low and rep.get("summary"):
         ctx.inconclusive("vacuity: the replay did not exercise enough of: %s" % low)
